@@ -374,20 +374,23 @@ func ruleSuspendResume(c *report.Ctx) {
 			}
 		})
 		waitsResume := false
-		an.Instrs(handle, func(in ssa.Instruction) {
-			switch x := in.(type) {
-			case *ssa.Select:
-				for _, st := range x.States {
-					if st.Dir == types.RecvOnly && strings.HasSuffix(p.Desc(st.Chan), "NtfnsHandler.sigResume") {
+		// (the wait may be factored into a helper of the handler)
+		for _, hf := range reachIn(p, handle, pkgWallet) {
+			an.Instrs(hf, func(in ssa.Instruction) {
+				switch x := in.(type) {
+				case *ssa.Select:
+					for _, st := range x.States {
+						if st.Dir == types.RecvOnly && strings.HasSuffix(p.Desc(st.Chan), "NtfnsHandler.sigResume") {
+							waitsResume = true
+						}
+					}
+				case *ssa.UnOp:
+					if x.Op == token.ARROW && strings.HasSuffix(p.Desc(x.X), "NtfnsHandler.sigResume") {
 						waitsResume = true
 					}
 				}
-			case *ssa.UnOp:
-				if x.Op == token.ARROW && strings.HasSuffix(p.Desc(x.X), "NtfnsHandler.sigResume") {
-					waitsResume = true
-				}
-			}
-		})
+			})
+		}
 		if okShape && waitsResume {
 			c.OK(sk(handle)+":park-shape", "handle receives sigSuspend in its select and then waits for sigResume", p.Pos(handle.Pos()))
 		} else {
